@@ -6,6 +6,7 @@ import (
 	"strings"
 	"testing"
 
+	"verif/cs"
 	"verif/eng"
 	"verif/rec"
 	"verif/wv"
@@ -26,7 +27,12 @@ type c03Case struct {
 	Limbs []string `json:"limbs"`  // 16 limb values supplied as ProofWithPis.PublicInputs
 	V     []string `json:"values"` // 4 public values
 	Mode  int      `json:"mode"`
+	// Backend "r1cs": the wrapper is compiled with gnark's R1CS builder (commit range checker: the
+	// deployed configuration) and the assignment is handed to gnark's solver
+	Backend string `json:"backend,omitempty"`
 }
+
+var c03Compiled = map[string]*cs.System{}
 
 func packField(limbs []*big.Int) [4]*big.Int {
 	var out [4]*big.Int
@@ -70,6 +76,27 @@ func c03Run(c c03Case) (viol bool, desc string, res eng.Result, expectAccept boo
 	}
 	for j := range V {
 		asg.PublicInputs[j] = frontend.Variable(V[j])
+	}
+	if c.Backend != "" {
+		key := fmt.Sprintf("%s/%d", c.Base, c.K)
+		sys := c03Compiled[key]
+		if sys == nil {
+			var err error
+			sys, err = cs.CompileCircuit(cs.R1CS, cs.MechCommit, in.FixedTemplate())
+			if err != nil {
+				return true, "compile of the wrapper refused: " + err.Error(), res, expectAccept
+			}
+			c03Compiled[key] = sys
+		}
+		serr := sys.SolveCircuit(asg)
+		if (serr == nil) != expectAccept {
+			return true, fmt.Sprintf("%s compiled to R1CS: solver says %v for limbs %v values %v, expected accept=%v", in.Name(), serr, c.Limbs, c.V, expectAccept), res, expectAccept
+		}
+		res.Outcome = eng.Reject
+		if serr == nil {
+			res.Outcome = eng.Accept
+		}
+		return false, "", res, expectAccept
 	}
 	res = eng.Run(in.FixedTemplate(), asg, eng.Options{Mode: eng.Mode(c.Mode)})
 	got := res.Outcome == eng.Accept
@@ -152,6 +179,44 @@ func TestC03(t *testing.T) {
 		r.Extra("monitor_packing", info)
 		if len(viol) > 0 {
 			r.Fail(t, "C03/packing-wrap-free", c03Case{Base: "A1", K: 1}, "%s", strings.Join(viol, "; "))
+		}
+	}
+
+	// the same relation on the wrapper compiled for Groth16 (R1CS, commit checker), one shard
+	if rec.Mine(3) {
+		in := wv.Load("A1", 1)
+		tl, tv := c03True(in)
+		cases := []struct {
+			what  string
+			limbs []*big.Int
+			v     [4]*big.Int
+		}{{"true limbs and packing", tl, tv}}
+		for _, i := range []int{0, 6, 15} {
+			l := append([]*big.Int{}, tl...)
+			l[i] = new(big.Int).Add(tl[i], bigP)
+			cases = append(cases, struct {
+				what  string
+				limbs []*big.Int
+				v     [4]*big.Int
+			}{fmt.Sprintf("limb %d + p with matching packing", i), l, packField(l)})
+		}
+		v2 := tv
+		v2[1] = new(big.Int).Add(tv[1], big.NewInt(1))
+		cases = append(cases, struct {
+			what  string
+			limbs []*big.Int
+			v     [4]*big.Int
+		}{"true limbs, value 1 off by one", tl, v2})
+		for _, cse := range cases {
+			c := c03Case{Base: "A1", K: 1, Limbs: strs(cse.limbs), V: strs(cse.v[:]), Backend: "r1cs"}
+			viol, d, res, exp := c03Run(c)
+			what := cse.what
+			r.Case("compiled-r1cs/"+what, true, fmt.Sprint(c.Limbs, c.V, "r1cs"), func() any {
+				return map[string]any{"what": what, "expected_accept": exp, "solver": res.Outcome.String()}
+			})
+			if viol {
+				r.Fail(t, "C03/compiled-r1cs", c, "%s", d)
+			}
 		}
 	}
 
